@@ -1,10 +1,12 @@
 (* C14 -- polynomial evaluation agrees with exact evaluation in every basis: statements.
    Model: MPSV.Eval.EvalModel (definitions only).  Proofs: Eval/EvalExact.v, Eval/EvalRounded.v,
-   Eval/EvalTwin.v, Eval/EvalBound.v, Eval/EvalSparse.v, Eval/EvalCheb.v. *)
+   Eval/EvalTwin.v, Eval/EvalBound.v, Eval/EvalSparse.v, Eval/EvalCheb.v, Eval/EvalSecPoly.v,
+   Eval/EvalChebEst.v. *)
 Require Import Reals List QArith.
 From Coquelicot Require Import Complex.
 Require Import MPSV.Eval.EvalModel MPSV.Eval.EvalExact MPSV.Eval.EvalRounded MPSV.Eval.EvalTwin.
 Require Import MPSV.Eval.EvalBound MPSV.Eval.EvalSparse MPSV.Eval.EvalCheb.
+Require Import MPSV.Eval.EvalSecPoly MPSV.Eval.EvalChebEst.
 Import ListNotations.
 Local Open Scope R_scope.
 
@@ -179,3 +181,84 @@ Proof. exact ex_all_ne. Qed.
 Example C14_ex_monomial_input : monomial_input 2 (RtoC 1) = [None; None; None; None; Some (RtoC 1)]
   /\ sparse_expo 3 = 10%nat.
 Proof. split; reflexivity. Qed.
+
+(* ------------------------------------------------------------------ secular PRODUCT FORM *)
+
+(* mps_secular_poly_{f,d,m}eval_with_error as coded: P^ = fl(-1 * fl(.. fl(S^ fl(x-b_1)) .. fl(x-b_n))).  For every
+   secular equation (n terms), every point that is none of the b_i and every standard-model arithmetic the
+   evaluation succeeds and
+     |P^ - P| <= ((1+nu)(1+mu)^(3n+2) - 1) (sum|a_i|/|x-b_i| + 1) prod|x-b_i|,   nu = 2mu/(1-mu),
+   where P = -S prod(x-b_i) is the specification value. *)
+Theorem C14_secular_poly_apriori : forall (A : arith) (mu : R) (ab : list (C * C)) (x : C),
+  std_model mu A -> mu < 1 -> all_ne ab x ->
+  exists p, sec_poly_fl A ab x = Some p /\
+    Cmod (p - sec_poly_exact ab x)%C
+      <= ((1 + 2 * mu / (1 - mu)) * (1 + mu) ^ (3 * length ab + 2) - 1)
+         * ((sec_abs ab x + 1) * Cmod (sec_prodC ab x)).
+Proof. exact secular_poly_apriori. Qed.
+Print Assumptions C14_secular_poly_apriori.
+
+(* first-order form: the right-hand side used by the check, (10/9)(3n+4) mu * condition quantity *)
+Theorem C14_secular_poly_apriori_linear : forall (A : arith) (mu : R) (ab : list (C * C)) (x : C),
+  std_model mu A -> all_ne ab x -> INR (3 * length ab + 4) * mu <= 1 / 10 ->
+  exists p, sec_poly_fl A ab x = Some p /\
+    Cmod (p - sec_poly_exact ab x)%C
+      <= 10 / 9 * (INR (3 * length ab + 4) * mu) * ((sec_abs ab x + 1) * Cmod (sec_prodC ab x)).
+Proof. exact secular_poly_apriori_linear. Qed.
+Print Assumptions C14_secular_poly_apriori_linear.
+
+(* The error estimate AS CODED (running sum error += |fl(a_i/fl(x-b_i))| (i+2); error = (error + 1) u4;
+   then error *= |fl(x-b_i)| for every i; all in rounded real arithmetic Ra of accuracy eta) is the estimate
+   returned next to the value of sec_poly_fl, and it bounds the actual error UNDER the guard-bit hypothesis
+   written in the statement: the arithmetic really used must be more accurate than the declared unit u4 by a
+   factor that grows with n (left side ~ (3n+4) mu).  For GMP (mu about 2^-64 * 2^-wp against u4 = 8 * 2^-wp)
+   this is a fact about the library, part of the trusted base; its consequence is tested on every MP run. *)
+Theorem C14_secular_poly_estimate_bounds_error :
+  forall (A : arith) (Ra : rarith) (mu eta : R),
+  std_model mu A -> rstd_model eta Ra -> mu <= 1 / 3 -> eta <= 1 ->
+  forall (u4 : R) (ab : list (C * C)) (x : C), 0 <= u4 -> all_ne ab x ->
+  (1 + 2 * mu / (1 - mu)) * (1 + mu) ^ (3 * length ab + 2) - 1
+    <= u4 * ((1 - eta) ^ (5 * length ab + 2) * (1 - mu) ^ length ab * (1 - 2 * mu / (1 - mu))) ->
+  exists p e, sec_poly_est_fl A Ra u4 ab x = Some (p, e) /\ sec_poly_fl A ab x = Some p /\
+    Cmod (p - sec_poly_exact ab x)%C <= e.
+Proof. exact secular_poly_estimate_bounds_error. Qed.
+Print Assumptions C14_secular_poly_estimate_bounds_error.
+
+(* ------------------------------------------------------------------ Chebyshev estimate *)
+
+(* REFUTED: the estimate of mps_chebyshev_poly_meval as coded, u2 (|c_1 x| + sum (|2 x T_{i-1}| + |T_{i-2}|) |x|),
+   never reads c_i for i >= 2.  For EVERY real arithmetic Ra computing it (no hypothesis on Ra at all), every
+   declared unit u2 and every accuracy delta > 0 of a standard-model complex arithmetic, some degree-2 input
+   has an actual error above the returned estimate: no number of guard bits repairs it.  The witness
+   family (0, 0, K) is replayed on the real code by the check (known finding chebyshev:meval:mp-estimate). *)
+Theorem C14_chebyshev_estimate_refuted : forall (delta u2 : R) (Ra : rarith), 0 < delta ->
+  exists (cs : list C) (x : C), length cs = 3%nat /\
+    cheb_est_fl (sarith delta) Ra u2 cs x < Cmod (cheb_fl (sarith delta) cs x - chebC cs x)%C.
+Proof. exact chebyshev_estimate_refuted. Qed.
+Print Assumptions C14_chebyshev_estimate_refuted.
+
+(* REPAIRED estimate (fixes/C14_chebyshev_meval_estimate.patch): (|c_0| + |c_1||x| + sum_{k>=2} |c_k| tm_k) ud with the
+   majorant recurrence tm_{k+1} = 2|x| tm_k + tm_{k-1} run in rounded real arithmetic.  It bounds the actual
+   error of the coded recurrence for every coefficient list, point and pair of arithmetics under the guard-bit
+   hypothesis in the statement (ud = 4 n 2^-wp in the patch). *)
+Theorem C14_chebyshev_fixed_estimate_bounds_error :
+  forall (A : arith) (Ra : rarith) (mu eta ud : R) (cs : list C) (x : C),
+  std_model mu A -> rstd_model eta Ra -> eta <= 1 -> 0 <= ud ->
+  (1 + mu) ^ (4 * (length cs - 1)) - 1 <= ud * (1 - eta) ^ (7 * (length cs - 1)) ->
+  Cmod (cheb_fl A cs x - chebC cs x)%C <= cheb_fix_est Ra ud cs x.
+Proof. exact chebyshev_fixed_estimate_bounds_error. Qed.
+Print Assumptions C14_chebyshev_fixed_estimate_bounds_error.
+
+(* non-vacuity: the real-arithmetic model is satisfiable (exact reals), the guard hypotheses hold for an exact
+   complex arithmetic with any declared unit, and the coded estimates are not trivially zero *)
+Example C14_ex_rstd_model : rstd_model (1 / 2 ^ 53) exact_rarith.
+Proof. exact ex_rstd_model. Qed.
+Example C14_ex_sec_guard :
+  (1 + 2 * 0 / (1 - 0)) * (1 + 0) ^ (3 * 2 + 2) - 1
+    <= 4 / 2 ^ 50 * ((1 - 1 / 2 ^ 53) ^ (5 * 2 + 2) * (1 - 0) ^ 2 * (1 - 2 * 0 / (1 - 0))).
+Proof. exact ex_sec_guard. Qed.
+(* 1/(x-1) + 2/(x+1) - 1 at x = 3 in exact arithmetic with u4 = 1: P = -(1/2 + 1/2 - 1) * 2 * 4 = 0 and the
+   coded estimate is (2 * 1/2 + 3 * 1/2 + 1) * 2 * 4 = 28 *)
+Example C14_ex_sec_estimate :
+  sec_poly_est_fl exact_arith exact_rarith 1 [(RtoC 1, RtoC 1); (RtoC 2, RtoC (-1))] (RtoC 3) = Some (RtoC 0, 28).
+Proof. exact ex_sec_estimate. Qed.
